@@ -99,7 +99,7 @@ func initWithWatchdog(b *openingbook.Book, dir, file string, timeout time.Durati
 	case <-done:
 		return
 	case <-time.After(timeout):
-		dl, s := engineDeadlocked(inProcessDump())
+		dl, s := provenDeadlock()
 		return nil, "", dl, s, true
 	}
 }
